@@ -321,8 +321,9 @@ class TidesBase(WorldConfigHolder):
                     'max_tidal_l may not be equal for both functions.'
                     )
 
-        # Determine if new tidal frequencies need to be calculated
-        if spin_freq_changed or orbital_freq_changed:
+        # Determine if new tidal frequencies and terms need to be calculated. The tidal terms are built from the
+        #    eccentricity and obliquity results, so they must also be rebuilt whenever either of those was updated above.
+        if spin_freq_changed or orbital_freq_changed or self._need_to_collapse_modes:
             if eccentricity_results is not None and obliquity_results is not None and \
                     spin_frequency is not None and orbital_frequency is not None:
                 # Update the tidal frequencies and terms using the new orbital frequency
